@@ -17,7 +17,7 @@ def run(tier, seed):
                           detail="wrong=%d origin_gets_first_pass=%d identities=%d first: %s" % (e["wrong"], e["origin_gets_first_pass"], e["get_identities"], e["detail"]),
                           sample=[e]))
     return finish("C02", tier, t0, parts,
-                  "TLC enumerates request targets (2 (3) methods x 3 (4) host spellings x paths of <=3 segments over {a,b,.,..,'',a|b,a%7Cb,a%3Fb} x trailing slash x 7 queries), "
+                  "TLC enumerates request targets (2 (3) methods x 3 (4) host spellings x paths of <=3 segments over {a,b,.,..,'',a|b,a%7Cb,a%3Fb, a 261-character name} x trailing slash x 7 queries), "
                   "renders the wire form and computes the Strict and Loose identities; the Go driver parses each wire request with http.ReadRequest and computes "
                   "cache.MakeFromRequest; TLC judges the partition: no key shared by different Loose identities, one key per Strict identity. "
                   "End to end: the same targets are sent twice through the real proxy on a raw socket (host spellings mapped to localhost / LOCALHOST / 127.0.0.1); "
